@@ -32,6 +32,10 @@ type recStore struct {
 }
 
 func (s *recStore) ApplyBlock(cs consensus.State, cau consensus.ApplyUpdate) {
+	// a scheduling point inside the manager's critical section (a no-op outside
+	// a scheduled scope): code that reads the store without the manager's lock
+	// gets to run in the middle of a reorg
+	sim.YieldPoint("store.ApplyBlock")
 	if s.between != nil {
 		s.between(true)
 	}
@@ -43,6 +47,7 @@ func (s *recStore) ApplyBlock(cs consensus.State, cau consensus.ApplyUpdate) {
 }
 
 func (s *recStore) RevertBlock(cs consensus.State, cru consensus.RevertUpdate) {
+	sim.YieldPoint("store.RevertBlock")
 	if s.between != nil {
 		s.between(false)
 	}
